@@ -316,6 +316,13 @@ var staticRegs = []struct {
 	{reflect.TypeOf((*uint64)(nil)).Elem(), false, func(w *ecs.World) ecs.ID { return ecs.ComponentID[uint64](w) }},
 	{reflect.TypeOf((*[0]byte)(nil)).Elem(), false, func(w *ecs.World) ecs.ID { return ecs.ComponentID[[0]byte](w) }},
 	{reflect.TypeOf((*ecs.Relation)(nil)).Elem(), false, func(w *ecs.World) ecs.ID { return ecs.ComponentID[ecs.Relation](w) }},
+	// T next to *T, []T, *[]T: every distinct Go type is its own component type, and only the struct that
+	// embeds the marker first is a relation
+	{reflect.TypeOf((*int)(nil)).Elem(), false, func(w *ecs.World) ecs.ID { return ecs.ComponentID[int](w) }},
+	{reflect.TypeOf((**regStaticRel)(nil)).Elem(), false, func(w *ecs.World) ecs.ID { return ecs.ComponentID[*regStaticRel](w) }},
+	{reflect.TypeOf((*[]regStaticRel)(nil)).Elem(), false, func(w *ecs.World) ecs.ID { return ecs.ComponentID[[]regStaticRel](w) }},
+	{reflect.TypeOf((*[1]regStaticRel)(nil)).Elem(), false, func(w *ecs.World) ecs.ID { return ecs.ComponentID[[1]regStaticRel](w) }},
+	{reflect.TypeOf((**[]byte)(nil)).Elem(), false, func(w *ecs.World) ecs.ID { return ecs.ComponentID[*[]byte](w) }},
 }
 
 // registerStatic registers the next unused static type through ecs.ComponentID[T].
